@@ -15,17 +15,17 @@ Definition expr_span (join_ok : bool) (u : uexpr) : span := toks_span join_ok (u
 Definition path_span (join_ok : bool) (p : rpath) : span := toks_span join_ok (p_toks p).
 
 (* FieldName *)
-Inductive field_name := FIdent (name : string) (sp : span) | FIndex (n : N).
+Inductive field_name := FIdent (name : string) (sp : span) | FIndex (n : N) (sp : span).
 
 Definition field_name_eqb (a b : field_name) : bool :=
   match a, b with
   | FIdent s _, FIdent t _ => String.eqb s t      (* syn::Ident equality ignores the span *)
-  | FIndex n, FIndex m => N.eqb n m
+  | FIndex n _, FIndex m _ => N.eqb n m           (* syn::Index equality ignores the span *)
   | _, _ => false
   end.
 
 Definition field_name_str (f : field_name) : string :=
-  match f with FIdent s _ => s | FIndex n => N_to_string n end.
+  match f with FIdent s _ => s | FIndex n _ => N_to_string n end.
 
 (* FieldOperation *)
 Inductive fop :=
@@ -81,7 +81,7 @@ Definition is_field_access (o : fop) : bool :=
 Fixpoint root_field_name (o : fop) : option field_name :=
   match o with
   | ONamed name nsp _ => Some (FIdent name nsp)
-  | OUnnamed i _ => Some (FIndex i)
+  | OUnnamed i sp => Some (FIndex i sp)
   | OChained _ ops =>
       (fix first_non_deref (l : list fop) : option field_name :=
          match l with
